@@ -33,7 +33,7 @@ def main():
     if args.seeded:  # the independently seeded changes of this property (seeded/<ID>, <ID>-r2, ...)
         patches = sorted(glob.glob(os.path.join(ROOT, "seeded", args.pid + "*", "patch.diff")))
     if args.only:
-        patches = [p for p in patches if args.only in os.path.basename(p)]
+        patches = [p for p in patches if args.only in (os.path.basename(os.path.dirname(p)) if args.seeded else os.path.basename(p))]
     results = []
     for patch in patches:
         scratch = tempfile.mkdtemp(prefix="verif-mut-", dir="/tmp")
